@@ -55,24 +55,395 @@ theorem core_becomeFollower (n : Node) (r : Request) : Core n (n.becomeFollower 
     exact ⟨rfl, rfl, rfl, rfl, h, fun hs => by simp at hs, fun hs => by simp at hs⟩
   · exact Core.refl n
 
+theorem validateHash_target {n : Node} {r : Request} {e : Response} (h : n.validateHash r = some e) :
+    e.target = r.index := by
+  unfold Node.validateHash at h
+  split at h <;> simp at h
+  subst h; rfl
+
+theorem validateTerm_target {n : Node} {r : Request} {e : Response} (h : n.validateTerm r = some e) :
+    e.target = r.index := by
+  unfold Node.validateTerm at h
+  split at h <;> simp at h
+  subst h; rfl
+
+theorem validateTermForVote_target {n : Node} {r : Request} {e : Response}
+    (h : n.validateTermForVote r = some e) : e.target = r.index := by
+  unfold Node.validateTermForVote at h
+  split at h <;> simp at h
+  subst h; rfl
+
+theorem validateVoteState_target {n : Node} {r : Request} {e : Response}
+    (h : n.validateVoteState r = some e) : e.target = r.index := by
+  unfold Node.validateVoteState at h
+  split at h
+  · simp at h; subst h; rfl
+  · simp at h; subst h; rfl
+  · simp at h; subst h; rfl
+  · split at h <;> simp at h
+    subst h; rfl
+  · simp at h
+
+theorem validateLog_target {n : Node} {r : Request} {e : Response} (h : n.validateLog r = some e) :
+    e.target = r.index := by
+  unfold Node.validateLog at h
+  split at h <;> simp at h
+  subst h; rfl
+
+theorem validateLogForVote_target {n : Node} {r : Request} {e : Response}
+    (h : n.validateLogForVote r = some e) : e.target = r.index := by
+  unfold Node.validateLogForVote at h
+  split at h <;> simp at h
+  subst h; rfl
+
+theorem validateLogAppend_target {n : Node} {r : Request} {l : Log} {e : Response}
+    (h : n.validateLogAppend r l = .error e) : e.target = r.index := by
+  unfold Node.validateLogAppend at h
+  repeat' split at h
+  all_goals first | (injection h with h; subst h; rfl) | (simp at h)
+
+theorem appendLogs_target {n : Node} {r : Request} {logs : List Log} {e : Response}
+    (h : (n.appendLogs r logs).2 = some e) : e.target = r.index := by
+  induction logs generalizing n with
+  | nil => simp [Node.appendLogs] at h
+  | cons l ls ih =>
+    unfold Node.appendLogs at h
+    split at h
+    · rename_i e' he
+      simp at h; subst h
+      exact validateLogAppend_target he
+    · exact ih h
+
 theorem core_appendRequest (n : Node) (r : Request) (logs : List Log) :
     Core n (n.appendRequest r logs).1 ∧ (n.appendRequest r logs).2.target = r.index := by
   unfold Node.appendRequest
   split
   · rename_i e he
-    refine ⟨Core.refl n, ?_⟩
-    unfold Node.validateHash at he
-    split at he <;> simp at he
-    subst he; rfl
+    exact ⟨Core.refl n, validateHash_target he⟩
   · split
     · rename_i e he
-      refine ⟨Core.refl n, ?_⟩
-      unfold Node.validateTerm at he
-      split at he <;> simp at he
-      subst he; rfl
+      exact ⟨Core.refl n, validateTerm_target he⟩
     · have hc : Core n (((n.becomeFollower r).updateNode r.index r.logIndex r.logTerm r.logCommit).appendLogs r logs).1 :=
         (core_becomeFollower n r).trans
           (((sameCore_updateNode _ _ _ _ _).trans (sameCore_appendLogs _ r logs)).core)
-      sorry
+      dsimp only
+      split
+      · rename_i e he
+        exact ⟨hc, appendLogs_target he⟩
+      · exact ⟨hc, rfl⟩
+
+theorem core_heartbeatRequest (n : Node) (r : Request) :
+    Core n (n.heartbeatRequest r).1 ∧ (n.heartbeatRequest r).2.target = r.index := by
+  unfold Node.heartbeatRequest
+  split
+  · rename_i e he
+    exact ⟨Core.refl n, validateHash_target he⟩
+  · split
+    · rename_i e he
+      exact ⟨Core.refl n, validateTerm_target he⟩
+    · dsimp only
+      split
+      · rename_i e he
+        exact ⟨core_becomeFollower n r, validateLog_target he⟩
+      · refine ⟨(core_becomeFollower n r).trans ?_, rfl⟩
+        have h1 := (sameCore_updateNode (n.becomeFollower r) r.index r.logIndex r.logTerm r.logCommit)
+        exact (SameCore.core (sameCore_ite (h1.trans (sameCore_commitStorage _ _)) h1))
+
+theorem preVoteRequest_target (n : Node) (now : Nat) (r : Request) :
+    (n.preVoteRequest now r).target = r.index := by
+  unfold Node.preVoteRequest
+  split
+  · rename_i e he; exact validateHash_target he
+  · split
+    · rfl
+    · split
+      · rfl
+      · split
+        · rename_i e he; exact validateLogForVote_target he
+        · rfl
+    · split
+      · rename_i e he; exact validateLogForVote_target he
+      · rfl
+
+/-- `vote_request` on the repaired code: a grant needs `term < request.term` and raises the term. -/
+theorem core_voteRequest (n : Node) (r : Request) (hv : n.variant.grantRaisesTerm = true) :
+    Core n (n.voteRequest r).1 ∧ (n.voteRequest r).2.target = r.index ∧
+    ((n.voteRequest r).2.result = .ok → n.term < r.term ∧ (n.voteRequest r).1.term = r.term) := by
+  unfold Node.voteRequest
+  split
+  · rename_i e he
+    refine ⟨Core.refl n, validateHash_target he, fun h => ?_⟩
+    unfold Node.validateHash at he
+    split at he <;> simp at he
+    subst he; simp at h
+  · split
+    · rename_i e he
+      refine ⟨Core.refl n, validateVoteState_target he, fun h => ?_⟩
+      unfold Node.validateVoteState at he
+      repeat' split at he
+      all_goals (simp at he; try (subst he; simp at h))
+    · split
+      · rename_i e he
+        refine ⟨Core.refl n, validateTermForVote_target he, fun h => ?_⟩
+        unfold Node.validateTermForVote at he
+        split at he <;> simp at he
+        subst he; simp at h
+      · rename_i hterm
+        have hlt : n.term < r.term := by
+          unfold Node.validateTermForVote at hterm
+          split at hterm
+          · simp at hterm
+          · omega
+        split
+        · rename_i e he
+          refine ⟨Core.refl n, validateLogForVote_target he, fun h => ?_⟩
+          unfold Node.validateLogForVote at he
+          split at he <;> simp at he
+          subst he; simp [Node.logMismatch] at h
+        · refine ⟨⟨rfl, rfl, rfl, rfl, ?_, fun hs => by simp at hs, fun hs => by simp at hs⟩, rfl, fun _ => ⟨hlt, ?_⟩⟩
+          · simp [hv]; omega
+          · simp [hv]
+
+theorem sameCore_modLoc_timer (n : Node) (now : Nat) :
+    SameCore n (n.modLoc (fun p => { p with timer := now })) :=
+  sameCore_modLoc _ _ (fun _ => ⟨rfl, rfl⟩)
+
+theorem core_request (n : Node) (now : Nat) (r : Request) (hv : n.variant.grantRaisesTerm = true) :
+    Core n (n.request now r).1 ∧ (n.request now r).2.target = r.index ∧
+    (r.data = .vote → (n.request now r).2.result = .ok →
+      n.term < r.term ∧ (n.request now r).1.term = r.term) := by
+  unfold Node.request
+  split
+  · rename_i logs hd
+    obtain ⟨h1, h2⟩ := core_appendRequest n r logs
+    exact ⟨h1.trans (sameCore_modLoc_timer _ now).core, h2, fun h => by simp [hd] at h⟩
+  · rename_i hd
+    obtain ⟨h1, h2⟩ := core_heartbeatRequest n r
+    exact ⟨h1.trans (sameCore_modLoc_timer _ now).core, h2, fun h => by simp [hd] at h⟩
+  · rename_i hd
+    exact ⟨Core.refl n, preVoteRequest_target n now r, fun h => by simp [hd] at h⟩
+  · obtain ⟨h1, h2, h3⟩ := core_voteRequest n r hv
+    exact ⟨h1.trans (sameCore_modLoc_timer _ now).core, h2, fun _ h => h3 h⟩
+
+theorem flags_fst_map_ite (l : List (Nat × Bool)) (c : Nat × Bool → Prop) [DecidablePred c] (b : Bool) :
+    (l.map (fun q => if c q then (q.1, b) else q)).map Prod.fst = l.map Prod.fst := by
+  rw [List.map_map]
+  apply List.map_congr_left
+  intro q _
+  by_cases h : c q <;> simp [h]
+
+theorem resetVotes_idx (n : Node) : n.resetVotes.flags.map Prod.fst = n.flags.map Prod.fst := by
+  rw [resetVotes_flags]
+  exact flags_fst_map_ite n.flags (fun q => (n.index != q.1) = true) false
+
+theorem modNode_voted_idx (n : Node) (i : Nat) :
+    (n.modNode i (fun p => { p with voted := true })).flags.map Prod.fst = n.flags.map Prod.fst := by
+  rw [modNode_voted_flags]
+  exact flags_fst_map_ite n.flags (fun q => (q.1 == i) = true) true
+
+theorem core_process (n : Node) (now : Nat) : Core n (n.process now).1 := by
+  unfold Node.process
+  split
+  · dsimp only
+    split
+    · exact Core.refl n
+    · exact (sameCore_touch n now _).core
+  · split
+    · dsimp only [Node.preElection]
+      refine ⟨rfl, rfl, rfl, ?_, Nat.le_refl _, fun hs => ?_, fun hs => ?_⟩
+      · change List.map Prod.fst (Node.flags (n.resetVotes.modLoc (fun p => { p with timer := now }))) = _
+        rw [(sameCore_modLoc_timer n.resetVotes now).flags]
+        exact resetVotes_idx n
+      · rename_i h1 h2
+        have : n.state = .candidate := hs
+        rw [h2.1] at this; cases this
+      · rename_i h1 h2
+        have : n.state = .leader := hs
+        exact absurd this h1
+    · split
+      · dsimp only
+        refine ⟨rfl, rfl, rfl, ?_, Nat.le_refl _, fun hs => ?_, fun hs => ?_⟩
+        · change List.map Prod.fst (Node.flags (Node.modLoc { n with state := .election } (fun p => { p with timer := now }))) = _
+          rw [(sameCore_modLoc_timer { n with state := .election } now).flags]
+          rfl
+        · have : CState.election = .candidate := hs
+          cases this
+        · have : CState.election = .leader := hs
+          cases this
+      · exact Core.refl n
+
+theorem core_append (n : Node) (data : Nat) : Core n (n.append data).1 := by
+  unfold Node.append
+  dsimp only
+  have h1 : SameCore n (n.modLoc (fun p => { p with logIndex := p.logIndex + 1 })) :=
+    sameCore_modLoc _ _ (fun p => ⟨rfl, rfl⟩)
+  have h2 : SameCore n ((n.modLoc (fun p => { p with logIndex := p.logIndex + 1 })).modLoc
+      (fun p => { p with logTerm := (n.modLoc (fun p => { p with logIndex := p.logIndex + 1 })).term })) :=
+    h1.trans (sameCore_modLoc _ _ (fun p => ⟨rfl, rfl⟩))
+  have h3 := h2.trans (sameCore_storage _ (((n.modLoc (fun p => { p with logIndex := p.logIndex + 1 })).modLoc
+      (fun p => { p with logTerm := (n.modLoc (fun p => { p with logIndex := p.logIndex + 1 })).term })).storage.append
+      ⟨((n.modLoc (fun p => { p with logIndex := p.logIndex + 1 })).modLoc
+      (fun p => { p with logTerm := (n.modLoc (fun p => { p with logIndex := p.logIndex + 1 })).term })).loc.logIndex,
+       ((n.modLoc (fun p => { p with logIndex := p.logIndex + 1 })).modLoc
+      (fun p => { p with logTerm := (n.modLoc (fun p => { p with logIndex := p.logIndex + 1 })).term })).term, data⟩))
+  exact (sameCore_ite (h3.trans (sameCore_commitStorage _ _)) h3).core
+
+/-- the answer is a grant for the candidate's current term from peer `i` -/
+def VoteOk (n : Node) (req : Request) (resp : Response) (i : Nat) : Prop :=
+  i = req.target ∧ req.data = .vote ∧ resp.result = .ok ∧ req.term = n.term
+
+/-- What `Cluster::response` can do to the C27 core (repaired code). -/
+structure RespCore (n n' : Node) (req : Request) (resp : Response) : Prop where
+  index : n'.index = n.index
+  size : n'.size = n.size
+  variant : n'.variant = n.variant
+  idx : n'.flags.map Prod.fst = n.flags.map Prod.fst
+  term_le : n.term ≤ n'.term
+  cand : n'.state = .candidate →
+      (n.state = .candidate ∧ n'.term = n.term ∧
+        ∀ q ∈ n'.flags, q.2 = true → q ∈ n.flags ∨ VoteOk n req resp q.1)
+    ∨ (n.state = .election ∧ n'.term = n.term + 1 ∧ ∀ q ∈ n'.flags, q.2 = true → q.1 = n.index)
+  lead : n'.state = .leader →
+      (n.state = .leader ∧ n'.term = n.term)
+    ∨ (n.state = .candidate ∧ n'.term = n.term ∧ n.size / 2 < (n'.flags.filter (fun q => q.2)).length ∧
+        ∀ q ∈ n'.flags, q.2 = true → q ∈ n.flags ∨ VoteOk n req resp q.1)
+
+theorem Core.respCore {n n' : Node} (h : Core n n') (req : Request) (resp : Response) :
+    RespCore n n' req resp where
+  index := h.index
+  size := h.size
+  variant := h.variant
+  idx := h.idx
+  term_le := h.term_le
+  cand := fun hs => by
+    obtain ⟨a, b, c⟩ := h.cand hs
+    exact Or.inl ⟨a, b, fun q hq _ => Or.inl (c ▸ hq)⟩
+  lead := fun hs => Or.inl (h.lead hs)
+
+theorem votes_eq_flags (n : Node) : n.votes = (n.flags.filter (fun q => q.2)).length := by
+  unfold Node.votes Node.flags
+  rw [List.filter_map, List.length_map]
+  rfl
+
+theorem core_stepDown (n : Node) (now : Nat) (m : MV) : Core n (n.stepDown now m) := by
+  unfold Node.stepDown
+  split
+  · split
+    · rename_i h
+      dsimp only
+      refine ⟨rfl, rfl, rfl, ?_, Nat.le_of_lt h, fun hs => ?_, fun hs => ?_⟩
+      · rename_i remote _
+        change List.map Prod.fst (Node.flags (Node.modLoc { n with term := remote, state := .election } (fun p => { p with timer := now }))) = _
+        rw [(sameCore_modLoc_timer { n with term := remote, state := .election } now).flags]
+        rfl
+      · have : CState.election = .candidate := hs
+        cases this
+      · have : CState.election = .leader := hs
+        cases this
+    · exact Core.refl n
+  · exact Core.refl n
+
+theorem sameCore_commit (n : Node) (now : Nat) (r : Request) : SameCore n (n.commit now r).1 := by
+  unfold Node.commit
+  dsimp only
+  have h1 : SameCore n (n.modNode r.target (fun p =>
+      { p with logIndex := r.logIndex, logTerm := r.logTerm, logCommit := r.logCommit })) :=
+    sameCore_modNode _ _ _ (fun _ => ⟨rfl, rfl⟩)
+  split
+  · exact (h1.trans (sameCore_commitStorage _ _)).trans (sameCore_heartbeatNoTimer _ now)
+  · exact h1
+
+theorem sameCore_reconcile (n : Node) (now : Nat) (r : Request) (c : MV) :
+    SameCore n (n.reconcile now r c).1 := by
+  unfold Node.reconcile
+  exact sameCore_modNode _ _ _ (fun _ => ⟨rfl, rfl⟩)
+
+theorem mem_voted_flags {n : Node} {i : Nat} {q : Nat × Bool}
+    (hq : q ∈ (n.modNode i (fun p => { p with voted := true })).flags) :
+    q ∈ n.flags ∨ q.1 = i := by
+  rw [modNode_voted_flags] at hq
+  obtain ⟨q0, hq0, rfl⟩ := List.mem_map.mp hq
+  by_cases h : q0.1 = i
+  · right; simp [h]
+  · left; simp [h]; exact hq0
+
+theorem respCore_preVoteReceived (n : Node) (now : Nat) (req : Request) (resp : Response)
+    (hs : n.state = .election) : RespCore n (n.preVoteReceived now req).1 req resp := by
+  unfold Node.preVoteReceived
+  dsimp only
+  split
+  · -- election()
+    unfold Node.election
+    dsimp only
+    refine ⟨rfl, rfl, rfl, ?_, by show n.term ≤ n.term + 1; omega, fun _ => Or.inr ⟨hs, rfl, ?_⟩, fun h => ?_⟩
+    · rw [resetVotes_idx]
+      show ((n.modNode req.target _).modLoc _).flags.map Prod.fst = _
+      rw [(sameCore_modLoc_timer _ now).flags]
+      exact modNode_voted_idx n req.target
+    · intro q hq hv
+      rw [resetVotes_flags] at hq
+      obtain ⟨q0, _, rfl⟩ := List.mem_map.mp hq
+      by_cases h : n.index = q0.1
+      · simp [h]
+      · have : ((n.modNode req.target fun p => { p with voted := true }).modLoc fun p => { p with timer := now }).index = n.index := rfl
+        simp [h] at hv
+    · have : CState.candidate = .leader := h
+      cases this
+  · refine ⟨rfl, rfl, rfl, modNode_voted_idx n req.target, Nat.le_refl _, fun h => ?_, fun h => ?_⟩
+    · have : n.state = .candidate := h
+      rw [hs] at this; cases this
+    · have : n.state = .leader := h
+      rw [hs] at this; cases this
+
+theorem respCore_voteReceived (n : Node) (now : Nat) (req : Request) (resp : Response)
+    (hs : n.state = .candidate) (hd : req.data = .vote) (hr : resp.result = .ok) (ht : req.term = n.term) :
+    RespCore n (n.voteReceived now req).1 req resp := by
+  have hflags : ∀ q ∈ (n.modNode req.target (fun p => { p with voted := true })).flags, q.2 = true →
+      q ∈ n.flags ∨ VoteOk n req resp q.1 := by
+    intro q hq _
+    rcases mem_voted_flags hq with h | h
+    · exact Or.inl h
+    · exact Or.inr ⟨h, hd, hr, ht⟩
+  unfold Node.voteReceived
+  dsimp only
+  split
+  · rename_i hvotes
+    have hsc := sameCore_heartbeatNoTimer
+      { (n.modNode req.target (fun p => { p with voted := true })) with state := .leader, term := req.term } now
+    refine ⟨hsc.index, hsc.size, hsc.variant, ?_, ?_, fun h => ?_, fun _ => Or.inr ⟨hs, ?_, ?_, ?_⟩⟩
+    · rw [hsc.flags]; exact modNode_voted_idx n req.target
+    · rw [hsc.term]; show n.term ≤ req.term; omega
+    · rw [hsc.state] at h
+      have : CState.leader = .candidate := h
+      cases this
+    · rw [hsc.term]; exact ht
+    · rw [hsc.flags]
+      rw [votes_eq_flags] at hvotes
+      exact hvotes
+    · rw [hsc.flags]; exact hflags
+  · refine ⟨rfl, rfl, rfl, modNode_voted_idx n req.target, Nat.le_refl _, fun _ => Or.inl ⟨hs, rfl, hflags⟩, fun h => ?_⟩
+    have : n.state = .leader := h
+    rw [hs] at this; cases this
+
+theorem respCore_response (n : Node) (now : Nat) (req : Request) (resp : Response)
+    (hv : n.variant.ignoreStaleVotes = true) : RespCore n (n.response now req resp).1 req resp := by
+  unfold Node.response
+  split
+  · rename_i hs _ _
+    exact respCore_preVoteReceived n now req resp hs
+  · rename_i hs hd hr
+    split
+    · exact (Core.refl n).respCore req resp
+    · rename_i hg
+      have ht : req.term = n.term := by
+        simp [hv] at hg
+        exact hg
+      exact respCore_voteReceived n now req resp hs hd hr ht
+  · exact (sameCore_commit n now req).core.respCore req resp
+  · exact (sameCore_commit n now req).core.respCore req resp
+  · exact (sameCore_reconcile n now req _).core.respCore req resp
+  · exact (sameCore_reconcile n now req _).core.respCore req resp
+  · exact (core_stepDown n now _).respCore req resp
+  · exact (Core.refl n).respCore req resp
 
 end Raft
